@@ -175,6 +175,10 @@ struct ReqSpec {
     real_client: bool,
     canaries: Vec<[u8; 8]>,
     client: usize,
+    /// version field the layout (and its canaries) was built for
+    built_version: u8,
+    /// session (algorithm, s2c key, c2s key) the request was made under
+    sess: Option<(u16, Vec<u8>, Vec<u8>)>,
 }
 
 fn cipher_for(alg: u16, key: &[u8]) -> Box<dyn Cipher> {
@@ -608,7 +612,7 @@ fn hand_header(r: &mut Rng, spec: &mut ReqSpec, version: u8, poll: u8) -> Hdr {
 fn build_request(w: &mut World, ci: usize, focus: &str) -> (Vec<u8>, ReqSpec) {
     let mut r = sub_rng("req.rng");
     let poll = w.clients[ci].poll;
-    let mut spec = ReqSpec { label: "v4-poll", strict: true, nts: Nts::None, real_client: true, canaries: Vec::new(), client: ci };
+    let mut spec = ReqSpec { label: "v4-poll", strict: true, nts: Nts::None, real_client: true, canaries: Vec::new(), client: ci, built_version: 0, sess: None };
     let adv_w = if matches!(focus, "C16" | "C17" | "C18" | "C22") { 6 } else { 3 };
     let kind = weighted("req.kind", &[6, 1, 2, 1, 4, 2, 2, adv_w, adv_w, 1]);
     let bytes = match kind {
@@ -641,6 +645,7 @@ fn build_request(w: &mut World, ci: usize, focus: &str) -> (Vec<u8>, ReqSpec) {
             let s = w.clients[ci].session.as_ref().unwrap();
             let want = (8 - s.cookies.len().min(7)) as u8;
             let c2s = cipher_for(s.alg, &s.c2s);
+            spec.sess = Some((s.alg, s.s2c.clone(), s.c2s.clone()));
             spec.nts = Nts::Valid { cookie_server: cookie.server, cookie_epoch: cookie.epoch };
             let p = if v5 {
                 NtpPacket::nts_poll_message_v5(&cookie.bytes, want, PollInterval::from_byte(poll)).0
@@ -666,20 +671,23 @@ fn build_request(w: &mut World, ci: usize, focus: &str) -> (Vec<u8>, ReqSpec) {
     };
     // header twists on top (wrong mode / wrong version), keeping the rest of the layout
     let mut bytes = bytes;
+    spec.built_version = bytes.first().map(|b| (b >> 3) & 7).unwrap_or(0);
     if !bytes.is_empty() && chance("req.twist", 0.08) {
-        spec.strict = false;
-        spec.real_client = false;
-        if spec.nts != Nts::None {
-            spec.nts = Nts::Broken; // the header is part of the authenticated data
-        }
-        if chance("req.twist.version", 0.5) {
+        let b0 = if chance("req.twist.version", 0.5) {
             let v = [0u8, 1, 2, 3, 4, 5, 6, 7][choose("req.twist.v", 8) as usize];
-            bytes[0] = (bytes[0] & !0x38) | (v << 3);
-            fault("wrong-version");
+            (bytes[0] & !0x38) | (v << 3)
         } else {
             let m = [4u8, 0, 1, 2, 5, 6, 7][choose("req.twist.m", 7) as usize];
-            bytes[0] = (bytes[0] & !7) | m;
-            fault("wrong-mode");
+            (bytes[0] & !7) | m
+        };
+        if b0 != bytes[0] {
+            fault(if (b0 ^ bytes[0]) & 0x38 != 0 { "wrong-version" } else { "wrong-mode" });
+            bytes[0] = b0;
+            spec.strict = false;
+            spec.real_client = false;
+            if spec.nts != Nts::None {
+                spec.nts = Nts::Broken; // the header is part of the authenticated data
+            }
         }
     }
     (bytes, spec)
@@ -865,6 +873,7 @@ fn build_adversarial_nts(w: &mut World, ci: usize, r: &mut Rng, spec: &mut ReqSp
     let cookie = take_cookie(w, ci, r);
     let (alg, c2s_key) = {
         let s = w.clients[ci].session.as_ref().unwrap();
+        spec.sess = Some((s.alg, s.s2c.clone(), s.c2s.clone()));
         (s.alg, s.c2s.clone())
     };
     let h = hand_header(r, spec, if v5 { 5 } else { 4 }, poll);
@@ -906,7 +915,7 @@ fn build_adversarial_nts(w: &mut World, ci: usize, r: &mut Rng, spec: &mut ReqSp
         }
     }
     // placeholders: many / tiny / odd sizes
-    let n_ph = [0usize, 1, 7, 8, 9, 20][choose("req.nts.nph", 6) as usize];
+    let n_ph = [0usize, 1, 2, 7, 8, 9, 20][weighted("req.nts.nph", &[4, 3, 2, 1, 1, 1, 1])];
     for _ in 0..n_ph {
         let len = match choose("req.nts.phlen", 6) {
             0 => cookie.bytes.len(),
@@ -1089,6 +1098,15 @@ async fn deliver(w: &mut World, d: Datagram<ReqSpec>) {
     let send_fail = w.real_serve && !w.clean && chance("sock.sendfail", 0.02);
     let (model_limited, collided) = if verdict == ListVerdict::Pass && !no_timestamp {
         let node = &mut w.servers[si];
+        if let Some(Some((a, t))) = slot.and_then(|i| node.slots.slots.get(i)) {
+            if *a == addr && cfg.cutoff_ns > 1 {
+                if now - t == cfg.cutoff_ns {
+                    probe("same-address-exactly-at-cutoff");
+                } else if now - t + 1 == cfg.cutoff_ns {
+                    probe("same-address-1ns-before-cutoff");
+                }
+            }
+        }
         node.slots.arrive(addr, slot, now, cfg.cutoff_ns)
     } else {
         (false, false)
@@ -1239,6 +1257,15 @@ async fn deliver(w: &mut World, d: Datagram<ReqSpec>) {
         Nts::Valid { cookie_server, cookie_epoch } => *cookie_server == si && epoch - cookie_epoch <= cfg.history as u64,
         Nts::Broken => false,
     };
+    if let Nts::Valid { cookie_server, cookie_epoch } = &spec.nts {
+        if *cookie_server != si {
+            probe("nts-cookie-of-another-server");
+        } else if epoch - cookie_epoch > cfg.history as u64 {
+            probe("nts-cookie-key-rotated-out");
+        } else if epoch != *cookie_epoch {
+            probe("nts-cookie-under-older-key");
+        }
+    }
     let must_time = verdict == ListVerdict::Pass && !model_limited && spec.strict && !damaged && cfg.versions.contains(&view.version) && cookie_ok;
     if must_time {
         check!(
@@ -1257,11 +1284,11 @@ async fn deliver(w: &mut World, d: Datagram<ReqSpec>) {
     let mut harvested: Vec<Vec<u8>> = Vec::new();
     if let Some(resp) = &obs.resp {
         let mut plain: Option<Vec<u8>> = None;
-        if let (Nts::Valid { .. }, Some(sess)) = (&spec.nts, w.clients[ci].session.as_ref()) {
+        if let (Nts::Valid { .. }, Some(sess)) = (&spec.nts, spec.sess.as_ref()) {
             let rv = wire::walk(resp);
             if let Some(f) = rv.fields.iter().find(|f| f.type_id == wire::T_ENC) {
                 if let Some((nonce, ct)) = wire::split_enc(&f.body) {
-                    let s2c = cipher_for(sess.alg, &sess.s2c);
+                    let s2c = cipher_for(sess.0, &sess.1);
                     plain = s2c.decrypt(nonce, ct, &resp[..f.start]).ok();
                 }
                 if !damaged {
@@ -1269,7 +1296,20 @@ async fn deliver(w: &mut World, d: Datagram<ReqSpec>) {
                 }
             }
         }
-        let ctx = oracle::RespCtx { req: &bytes, req_view: &view, resp, info: &info_model, recv_raw, plain: plain.as_deref(), canaries: &spec.canaries, nts_keys: matches!(spec.nts, Nts::Valid { .. }) };
+        // canaries sit in fields that are not echoed *in the layout they were built for*
+        // (damage can move a canary into a field that is echoed: those bytes may come back)
+        let echo_hdr = if view.version == 5 { &bytes[24..32] } else { &bytes[40..48] };
+        let canaries: Vec<[u8; 8]> = if view.version == spec.built_version {
+            spec.canaries
+                .iter()
+                .filter(|c| !wire::contains(echo_hdr, &c[..]) && !view.fields.iter().any(|f| f.type_id == wire::T_UID && wire::contains(&f.body, &c[..])))
+                .copied()
+                .collect()
+        } else {
+            Vec::new()
+        };
+        let canaries = &canaries;
+        let ctx = oracle::RespCtx { req: &bytes, req_view: &view, resp, info: &info_model, recv_raw, plain: plain.as_deref(), canaries, nts_keys: matches!(spec.nts, Nts::Valid { .. }) };
         let findings = oracle::check_response(&ctx);
         simkit::oracle("C18");
         for (clause, detail) in findings {
@@ -1281,6 +1321,31 @@ async fn deliver(w: &mut World, d: Datagram<ReqSpec>) {
                     if f.type_id == wire::T_COOKIE {
                         harvested.push(f.body.clone());
                     }
+                }
+            }
+        }
+        if seen == Seen::Time {
+            probe(match spec.label {
+                "v4-poll" => "time:v4-poll",
+                "v4-upgrade-poll" => "time:v4-upgrade-poll",
+                "v5-poll" => "time:v5-poll",
+                "v3-poll" => "time:v3-poll",
+                "nts-v4-poll" => "time:nts-v4-poll",
+                "nts-v5-poll" => "time:nts-v5-poll",
+                "v4-strict-layout" => "time:v4-strict-layout",
+                "v5-strict-layout" => "time:v5-strict-layout",
+                "v4-adversarial" => "time:v4-adversarial",
+                "v5-adversarial" => "time:v5-adversarial",
+                "nts-v4-adversarial" => "time:nts-v4-adversarial",
+                "nts-v5-adversarial" => "time:nts-v5-adversarial",
+                _ => "time:other",
+            });
+            if spec.real_client && !damaged && matches!(spec.nts, Nts::Valid { .. }) {
+                let asked = view.count(wire::T_COOKIE) + view.count(wire::T_PLACEHOLDER);
+                if harvested.len() == asked {
+                    probe("nts-client-got-as-many-cookies-as-fields");
+                } else {
+                    probe("nts-client-got-fewer-cookies-than-fields");
                 }
             }
         }
@@ -1317,9 +1382,10 @@ async fn deliver(w: &mut World, d: Datagram<ReqSpec>) {
                         "C17",
                         "c17-answer-needs-more-than-request-sized-buffer",
                         seen == tseen,
-                        "{} request of {} bytes (uid fields {}, cookie+placeholder fields {}): with a 4096-byte buffer the server answers {tseen:?} in {} bytes, with the daemon's request-sized buffer the client saw {seen:?} (statistics: {reason})",
+                        "{} request of {} bytes ({}; uid fields {}, cookie+placeholder fields {}): with a 4096-byte buffer the server answers {tseen:?} in {} bytes, with the daemon's request-sized buffer the client saw {seen:?} (statistics: {reason})",
                         spec.label,
                         bytes.len(),
+                        if view.fields.iter().any(|f| f.type_id == wire::T_UID && f.wire_len < 28) { "has unique-identifier fields shorter than the 16/28-byte minimum an answer pads them to" } else { "no short unique-identifier field" },
                         view.count(wire::T_UID),
                         view.count(wire::T_COOKIE) + view.count(wire::T_PLACEHOLDER),
                         tr.len()
@@ -1335,7 +1401,11 @@ async fn deliver(w: &mut World, d: Datagram<ReqSpec>) {
     }
 
     // ---- the client digests the answer -----------------------------------------------------------
-    if let Some(sess) = w.clients[ci].session.as_mut() {
+    let same_session = match (&spec.sess, w.clients[ci].session.as_ref()) {
+        (Some(a), Some(b)) => a.2 == b.c2s,
+        _ => false,
+    };
+    if let (true, Some(sess)) = (same_session, w.clients[ci].session.as_mut()) {
         for c in harvested {
             if sess.cookies.len() < 8 {
                 sess.cookies.push_back(Cookie { bytes: c, server: si, epoch });
